@@ -130,8 +130,10 @@ class CaseSpin(BaseException):
     pass
 
 
-MEM_LIMIT = 5 << 30      # address space of one shard; a runaway allocation inside the library ends in MemoryError, not in the OOM killer
-MEM_ALARM = 2 << 30      # resident size no case comes near (the largest messages are tens of MiB)
+MEM_LIMIT = 6 << 30      # address space of one shard; a runaway allocation inside the library ends in MemoryError, not in the OOM killer
+MEM_ALARM = 2 << 30      # growth of the resident size within ONE case that no case comes near (the largest messages are tens of
+                         # MiB); what a shard accumulates over a long thorough run (classes, traces) is not counted, and the
+                         # schedule-search modules, whose cases are whole explorations, are exempt like they are from the CPU guard
 
 
 def _maxrss():
@@ -222,10 +224,11 @@ def shard_main(pid, tier, seed, i, n):
                 for k_ in case['_env']:
                     acc.count2('case_env', k_)
             acc.evaluations += 1
+            rss_before = _maxrss()
             try:
                 with _SpinWatch(case_cpu_limit):
                     mod.run_case(case, acc)
-                if _maxrss() > MEM_ALARM and not mem_alarmed:
+                if case_cpu_limit and _maxrss() - rss_before > MEM_ALARM and not mem_alarmed:
                     # (the library turns the MemoryError into an ordinary Disconnected - without the address-space limit
                     # this process runs under, the application would have been killed)
                     mem_alarmed = True
